@@ -34,6 +34,10 @@ func init() {
 	register("C04", func(s *simrt.Sim) *Result {
 		return RunRoute(s, RouteProfile{Name: "C04", Faults: true, Cleanup: true})
 	})
+	register("C05ring", RunRing)
+	register("C05sys", func(s *simrt.Sim) *Result {
+		return RunRoute(s, RouteProfile{Name: "C05sys", CheckC05: true, CheckC02End: true, Cleanup: true})
+	})
 	register("C08", func(s *simrt.Sim) *Result {
 		return RunRoute(s, RouteProfile{Name: "C08", Faults: true, Churn: true, Cleanup: true})
 	})
